@@ -352,19 +352,22 @@ def r5(model, rep):
                 is_src = v
             if k[0] == "EQ" and "" in k[1:] and wv in k[1:]:
                 warned = not v
-        if is_src is None or warned is None:
+        if is_src is None and warned is None:
             raise AnalysisError("row path does not decide (source?, warning?)")
         maps = [(name, val.get(vkey(dv))) for name, val in lf.env.items() if isinstance(val, DictV) and val.get(vkey(dv)) is not None
                 and isinstance(val.get(vkey(dv)), RF) and val.get(vkey(dv)).is_const()]
         val = maps[0][1] if maps else None
         if maps:
             flagmap = maps[0][0]
-        want = 1 if warned else (0 if is_src else None)
         have = None if val is None else val.const_value()
-        if (want is None) != (have is None) or (want is not None and have != want):
-            ok = False
-            rep.violation("R5", "system.System.solve", where, "after a %s row %s a warning the subsystem flag of its domain is %s, expected %s" % (
-                "source" if is_src else "component", "with" if warned else "without", have, want), "flag src=%s warn=%s -> %s" % (is_src, warned, have))
+        # a path that does not look at one of the two questions is taken for both answers: what it leaves in the flag holds for both
+        for src_case in ([is_src] if is_src is not None else [True, False]):
+            for warn_case in ([warned] if warned is not None else [True, False]):
+                want = 1 if warn_case else (0 if src_case else None)
+                if (want is None) != (have is None) or (want is not None and have != want):
+                    ok = False
+                    rep.violation("R5", "system.System.solve", where, "after a %s row %s a warning the subsystem flag of its domain is %s, expected %s" % (
+                        "source" if src_case else "component", "with" if warn_case else "without", have, want), "flag src=%s warn=%s -> %s" % (src_case, warn_case, have))
     rep.instance("R5", "system.System.solve per-domain warning flag", where, ok, "%d row paths" % nleaf)
     if flagmap is None:
         raise AnalysisError("per-domain warning flag not found")
